@@ -13,7 +13,7 @@ from sa.report import Ctx
 from .common import generic_sweeps
 
 from .sat_common import check_binary_add
-from .cp_common import check_alldiff_coverage, check_constraint_table, check_small_semantics, check_cumulative_horizon, check_id_allocation, check_solve_is_read_only, check_domain_fields_fixed, check_unsat_sites, default_raises, dispatcher_tags, flattener_tags, produced_tags, shape_dispatch_falls_through, structural_len_subjects
+from .cp_common import check_alldiff_coverage, check_constraint_table, check_small_semantics, check_cumulative_horizon, check_id_allocation, check_solve_is_read_only, check_domain_fields_fixed, check_report_filter, check_unsat_sites, default_raises, dispatcher_tags, flattener_tags, produced_tags, shape_dispatch_falls_through, structural_len_subjects
 
 EXPLANATION = (
     "Decides structural necessary conditions of 'no returned assignment breaks an added constraint / INFEASIBLE only "
@@ -34,6 +34,7 @@ def run(ctx: Ctx):
     # ownership / table obligations first: they do not depend on the shape of the back-end selection code
     ctx.step(check_solve_is_read_only, "C05-O12")
     ctx.step(check_domain_fields_fixed, "C05-O12")
+    ctx.step(check_report_filter, "C05-O13")
     ctx.step(check_id_allocation, "C05-O10")
     ctags, etags = produced_tags(ctx)
     ctx.floor("constraint tags produced by cp.py", len(ctags), 12)
@@ -472,7 +473,19 @@ def _v_binary_add_same_variable_guard(tree):
     g.body[0:0] = M.stmts("if lit_var(lit_a) == lit_var(lit_b):\n    return")
 
 
+def _v_report_filter_by_spelling(tree):
+    g = M.find_func(tree, "Model._solve_dfs.backtrack")
+    M.replace_expr(g, lambda e: M.src_is(e, "n not in self._unnamed"), M.expr("not n.startswith('_')"))
+
+
+def _v_named_variable_recorded_as_unnamed(tree):
+    g = M.find_func(tree, "Model.int_var")
+    M.replace_stmt(g, lambda s: M.src_is(s, "self._vars[name] = var"), M.stmts("self._vars[name] = var\nif name.startswith('_'):\n    self._unnamed.add(name)"))
+
+
 VARIANTS = [
+    M.Variant("the DFS report drops every name that starts with an underscore, the caller's own included (original defect, ledger row 80)", CP, _v_report_filter_by_spelling, "C05-O13"),
+    M.Variant("int_var records every underscore name as made up by the model", CP, _v_named_variable_recorded_as_unnamed, "C05-O13"),
     M.Variant("BinaryImplications.add drops a clause whose two literals share a variable: [-b, -b] from x != x vanishes (seed C05-U)", "solvor/sat.py", _v_binary_add_same_variable_guard, "C05-O14"),
     M.Variant("Model.add turns `x != lb` into a raised lower bound (seed C05-S)", CP, _v_add_trims_bounds, "C05-O12"),
     M.Variant("DFS emits every value of the last open variable without assigning it (seed C05-T)", CP, _v_last_variable_shortcut, "C05-O4"),
